@@ -160,11 +160,18 @@ var hubC11 func(x *Ctx)
 func checkCloseOnce(x *Ctx, name string) {
 	n, tclose := 0, 0
 	causes := map[string]bool{}
+	setupAfterEnd := 0
 	for _, e := range x.Events() {
 		switch e.Kind {
 		case "closed":
 			if e.A == name {
 				n++
+			}
+		case "setup":
+			// the application is told 'set up' for a connection whose end it has
+			// already been told about: its last notification contradicts reality
+			if e.A == name && n > 0 && setupAfterEnd == 0 {
+				setupAfterEnd = e.Seq
 			}
 		case "tclose":
 			if e.A == name {
@@ -189,6 +196,10 @@ func checkCloseOnce(x *Ctx, name string) {
 	}
 	if n > 1 {
 		x.Violate("connection-end-reported-twice", "", fmt.Sprintf("HandleConnectionClosed was called %d times for one connection (causes present: %v)", n, keys(causes)))
+		return
+	}
+	if setupAfterEnd != 0 {
+		x.Violate("setup-after-end-reported", "", fmt.Sprintf("SetupRemoteDevice was called (event %d) after HandleConnectionClosed had been reported for the same connection (causes present: %v)", setupAfterEnd, keys(causes)))
 		return
 	}
 	if tclose > 0 && n == 0 {
